@@ -798,6 +798,14 @@ func (s *Sim) build(a *Action, bs *BState) world.Req {
 		if a.opt("redir") != "" {
 			q.Set("redir", a.opt("redir"))
 		}
+		if x := a.opt("extraq"); x != "" {
+			// further pass-along parameters of the application's own (the library carries them through the round trip)
+			for _, kv := range strings.Split(x, "&") {
+				if i := strings.IndexByte(kv, '='); i > 0 {
+					q.Set(kv[:i], kv[i+1:])
+				}
+			}
+		}
 		if len(q) > 0 {
 			rq.Path += "?" + q.Encode()
 		}
